@@ -340,7 +340,7 @@ def _t_sample(task, T):
     ms = task["model"]
     tag = task["tag"]
     _seed_global(task["seed"])
-    base, t, tr = _build(ms)
+    base, t, tr = _build(ms, random_state=(int(task["seed"]) % 1000 + 1) if task.get("seeded") else None)
     ex = _Exact(ms)
     case = f"sample/{tag}"
     seen = []
@@ -611,6 +611,8 @@ def _tasks(rng, tier):
     for i, (tag, ms) in enumerate(models):
         tasks.append({"task": "pdf", "tag": tag, "model": ms, "seed": S(), "cost": 1.0})
         tasks.append({"task": "sample", "tag": tag, "model": ms, "n": 200000 if quick else 1000000, "seed": S(), "cost": 0.5})
+    # more than 1e6 points from a SEEDED model: still one base draw, inverse-transformed (no block drawn twice)
+    tasks.append({"task": "sample", "tag": fixed[0], "model": FIXED[fixed[0]], "n": 1_200_000, "seed": S(), "seeded": True, "cost": 3.0})
     for i, (tag, ms) in enumerate(models if not quick else models[:3]):
         lv = [[0.5, 0.5], [0.9, 0.3]] if quick else [[0.5, 0.5], [0.9, 0.3], [0.3, 0.9], [0.99, 0.5]]
         tasks.append({"task": "cdf", "tag": tag, "model": ms, "n": 200000, "levels": lv, "as_list": bool(i % 2), "default_sample": i == 0, "seed": S(), "cost": 4.0 if quick else 10.0})
